@@ -174,6 +174,14 @@ def bounded(tier, seed):
                 viol.append(dict(ob=f"bounded/soap-list[{c},seed={seed * 100 + k}]", func="EigenvalueCorrectedShampooPreconditionerList", input=cfgd,
                                  text="real SOAP list deviates from the documented recurrences / basis not orthonormal-diagonalising", detail="; ".join(bad[:2]),
                                  replay=dict(kind="native_case", case=c, seed=seed * 100 + k)))
+    # "the orthogonal-iteration update of the previous basis (QR with ANY iteration count / tolerance)": the public entry point must hand the
+    # configured budget and tolerance on to the iteration (float64 re-implementation of the documented stopping rule)
+    from checks import mf as _mf
+    bad = _mf.native_qr_rule()
+    evals += 1
+    distinct.add(("qr-stopping-rule",))
+    if bad:
+        viol.append(dict(ob="bounded/qr-stopping-rule", func="matrix_eigenvectors", input=dict(budgets=[2, 3, 5]), text=bad, detail=bad, replay=dict(kind="eigvec")))
     return dict(evaluations=evals, distinct_nontrivial=len(distinct),
                 rule="real SOAP list on random float64 tensors (orders 1..4, extents 1..3, every ignored-dims subset, beta2 in {1,.9,.5}) for 4 steps with 2 refreshes against einsum/eigh definitions incl. orthonormality and diagonalisation of stored bases; distinct = distinct configurations",
                 samples=samples, bound=f"{n} seeds per (order, ignored dims, override kind)", violations=viol[:5])
